@@ -35,6 +35,7 @@ RULES = {
     ("validate_fields", 'Expected input type for argument "%s" on "%s" but got "%s"'): "argNotInput",
     ("_validate_resolver_arguments", 'Missing resolver parameter for argument "%s" on "%s"'): "resMissingParam",
     ("_validate_resolver_arguments", 'Argument "%s" on "%s" collides with a positional resolver parameter'): "resCollides",
+    ("_validate_resolver_arguments", 'Resolver for "%s" is not callable'): "resNotCallable",
     ("_validate_resolver_arguments", 'Resolver parameter for argument "%s" on "%s" must not be positional only'): "resPosOnly",
     ("_validate_resolver_arguments", 'Resolver parameter for optional argument "%s" on "%s" must have a default'): "resNeedsDefault",
     ("_validate_resolver_arguments", 'Resolver for "%s" must accept 3 positional parameters, found (%s)'): "resPositional",
@@ -57,8 +58,9 @@ RULES = {
 }
 # call sites that only exist once the proposed fix C13-S4-S6 is applied (their absence = unfixed tree)
 FIX_ONLY = {("validate_interfaces", 'Type "%s" can only implement interface types but got "%s"'),
-            ("_validate_resolver_arguments", 'Argument "%s" on "%s" collides with a positional resolver parameter')}
-FIX_ONLY_RULES = {"resCollides"}
+            ("_validate_resolver_arguments", 'Argument "%s" on "%s" collides with a positional resolver parameter'),
+            ("_validate_resolver_arguments", 'Resolver for "%s" is not callable')}
+FIX_ONLY_RULES = {"resCollides", "resNotCallable"}
 # unreachable through `Schema()` (construction raises first); not produced by the model
 NOT_MODELLED = {"notDirective", "enumNotValue"}
 
@@ -347,6 +349,9 @@ def _single_violation(rule, k):
     elif rule == "resCollides":
         oown["args"] = [A(["info", "ctx"][k], N("Int"))]
         oown["resolver"] = "root, ctx, info, **kw"
+    elif rule == "resNotCallable":
+        oown["resolver"] = "!not-callable"
+        oown["name"] = own + "x" * k
     elif rule == "notInterface":
         fresh({"kind": "object", "name": "Im" + sfx, "desc": None, "interfaces": [O],
                "fields": [F(fn, t1, [A(x, t1)]), F(own, N("Int"), [A("p", N("Int"))])]})
@@ -668,7 +673,22 @@ def validator_config():
         "extra_arg_required": extra_required,
         "subscription_checked": "subscription_resolver" in ast.dump(vf),
         "catches_type_error": catches,
+        # the resolver-signature rule runs for interface types too unless guarded by isinstance(composite_type, ObjectType)
+        "iface_resolver_checked": not any(
+            isinstance(n, ast.Assign) and "ObjectType" in ast.dump(n.value) and "isinstance" in ast.dump(n.value)
+            and getattr(n.targets[0], "id", "") == "is_resolved" for n in ast.walk(vf)) and
+            not any(isinstance(n, ast.If) and "_validate_resolver_arguments" in ast.dump(n) and "ObjectType" in ast.dump(n.test) for n in ast.walk(vf)),
+        "not_callable_reported": "is not callable" in ast.dump(vra),
     }
+
+
+def cache_tracks_arguments():
+    """`Schema._current_resolvers` (what validate() compares with what it validated) mentions the fields' arguments (fix C13-HHH3)"""
+    try:
+        fn = py2lean.find_function(SCHEMA.read_text(), "_current_resolvers", cls="Schema")
+    except py2lean.Untranslatable:
+        return False
+    return any(isinstance(n, ast.Attribute) and n.attr == "arguments" for n in ast.walk(fn))
 
 
 def cache_and_signature_flags():
@@ -768,6 +788,8 @@ def _extract_tables(ctx=None):
            for k, v in validator_config().items()] + [
            "/-- `Schema.validate()` only trusts the cached verdict for the resolver callables it was computed with (fix C13-HH1) -/",
            "def cfgCacheTracksAssignments : Bool := %s" % ("true" if cache_and_signature_flags()[0] else "false"),
+           "/-- the cached verdict also stands for the ARGUMENTS of every field it was computed with (fix C13-HHH3) -/",
+           "def cfgCacheTracksArguments : Bool := %s" % ("true" if cache_tracks_arguments() else "false"),
            "/-- the resolver-signature rule inspects the callable itself, not what it `functools.wraps` (fix C13-HH2) -/",
            "def cfgOuterSignature : Bool := %s" % ("true" if cache_and_signature_flags()[1] else "false"),
            "", "/-- the proposed fix C13-S4-S6 is present in the working tree -/",
